@@ -770,6 +770,35 @@ impl rustc_driver::Callbacks for Facts {
         root.push(("statics", J::A(statics)));
         root.push(("mods", J::A(mods)));
 
+        // re-exports: every name a module makes available through `use` (alias path -> definition path)
+        {
+            let mut reexports = Vec::new();
+            let mut modules: Vec<rustc_hir::def_id::LocalDefId> = vec![rustc_hir::def_id::CRATE_DEF_ID];
+            for id in tcx.hir_crate_items(()).definitions() {
+                if matches!(tcx.def_kind(id.to_def_id()), DefKind::Mod) {
+                    modules.push(id);
+                }
+            }
+            for m in modules {
+                let mpath = if m == rustc_hir::def_id::CRATE_DEF_ID { "crate".to_string() } else { path(tcx, m.to_def_id()) };
+                for ch in tcx.module_children_local(m) {
+                    if ch.reexport_chain.is_empty() {
+                        continue;
+                    }
+                    if let Some(t) = ch.res.opt_def_id() {
+                        if t.is_local() {
+                            reexports.push(o(vec![
+                                ("alias", s(format!("{}::{}", mpath, ch.ident.name))),
+                                ("target", s(path(tcx, t))),
+                                ("kind", s(format!("{:?}", tcx.def_kind(t)))),
+                            ]));
+                        }
+                    }
+                }
+            }
+            root.push(("reexports", J::A(reexports)));
+        }
+
         // effective visibility (reachable from outside the crate)
         {
             let ev = tcx.effective_visibilities(());
